@@ -52,7 +52,7 @@ ASSUMPTIONS = ['binary64 rounding of fmod/division in UpdateNextCheck is outside
                'passive check results arriving while an active check runs clear m_CheckRunning (checkable-check.cpp:105); outside the quantifier, not generated in the real-thread runs',
                'a force request that arrives while an asynchronous check of the same checkable is in flight is consumed by a dispatch that returns at the m_CheckRunning guard: no further execution (the exception stated in C04_forced); the oracle accepts exactly that: an ExecuteCheck entered after the request began that returned at the guard while an execution was in flight',
                'liveness is proved as enabledness only (C04_progress_partial); at run time only its timed reading is a violation: the SAME head of the next-check index stays due with a free slot for > 2 s + 10 x max observed oversleep (decided from snapshots taken under m_Mutex); waiting for a slot, for earlier-due checkables, for a pool thread or for the CPU is never flagged; gaps between starts (W records) are statistics only',
-               'a forced request is flagged if its clear of force_next_check is not followed by an ExecuteCheck of the checkable (order of records, timing free), or if it was never served although snapshots show the checkable in idle behind a head whose key is beyond anything its own key can be (request + Imax + dmax + 0.1 s + 10 x oversleep); at most <par> real-thread cases run at a time machine-wide (flock slots in /var/tmp/verif_c04_slots)',
+               'a forced request is flagged if its clear of force_next_check is not followed by an ExecuteCheck entry of the checkable (order of records; NOT evaluated for checkables deleted during the run: the entry is observed through OnLastCheckStartedChanged, which the generated Notify suppresses for inactive objects), or if it was never served although snapshots show the checkable in idle behind a head whose key is beyond anything its own key can be (request + Imax + dmax + 0.1 s + 10 x oversleep); at most <par> real-thread cases run at a time machine-wide (flock slots in /var/tmp/verif_c04_slots)',
                'timelines: a state counts as stable when the condition holds unchanged for 150 ms (longer when the harness observes stalls); a scheduler thread preempted for longer than that inside the two statements between the insertion into pending and the clear of force_next_check would be misread',
                'all checkables are in the local zone (same_zone = true) in the real-thread runs; command_endpoint is exercised by direct ExecuteCheck calls only']
 
